@@ -35,6 +35,7 @@ def drivers(d):
                         "n": not_(d, {"$ref": "other.json#/d"}),
                         "q": {"$ref": "#/definitions/N"},
                         "r": {"$ref": "remote.json#/d"},
+                        "k": {idk: "#k", "$ref": "#/definitions/N"},
                         "t": {idk: "sub/", "items": {"$ref": "../other.json#/e"}},
                         # an id that cannot be parsed, below a well-formed one: reaching it is a RefResolutionError
                         "bad": {idk: H + "ok/", "properties": {"z": {idk: "http://[", "type": "integer"}}}}}
@@ -44,7 +45,7 @@ def drivers(d):
         "remote": {H + "remote.json": {"d": {"type": "string"}}},
         "instances": [{"p": 1, "q": "s"}, {"p": "x", "q": 1},
                       {"n": 3, "q": 1, "t": [["a", 1], [2, "b"]], "p": "y"}, {"r": 1, "q": 2},
-                      {"q": 1, "bad": {"z": "s"}, "p": "x"}],
+                      {"q": 1, "bad": {"z": "s"}, "p": "x"}, {"k": 1, "q": "s", "p": "x"}],
         "refs": ["#/definitions/N", "remote.json#/d", "other.json#/e"], "scope": "sub/",
     })
     # --- B: recursion, unresolvable reference, abandoning applicators
@@ -180,6 +181,8 @@ def run_op(w, op):
                 w.mutated_instance = (orig, x)
     except exceptions.RefResolutionError:
         return ("RefResolutionError",)
+    except Exception as e:
+        return ("EXC", type(e).__name__)
     raise ValueError(op)
 
 
@@ -215,10 +218,12 @@ class Model(object):
                                                                    else "ret-clean"))
 
     def canon(self, w):
-        return (tuple(getattr(w.resolver, "_scopes_stack", [w.resolver.resolution_scope])), w.mode,
+        return (tuple(getattr(w.resolver, "_scopes_stack", ())), w.mode,
                 frozenset(w.fetched), tuple(sorted(w.resolver.store)), len(w.held))
 
     def check(self, w, hist, op, obs):
+        if obs and obs[0] == "EXC":
+            return ("foreign-exception|%s|%s" % (op[0], obs[1]), {"observed": obs})
         if op[0] != "mode":
             mode0, fetched0 = w.pre
             avail = set(fetched0)
@@ -230,8 +235,13 @@ class Model(object):
             exp = run_op(f, op)
             if obs != exp:
                 return ("differs-from-fresh|" + op[0], {"observed": obs, "fresh": exp})
-        if w.resolver.resolution_scope != w.scope0:
-            return ("scope-not-restored|" + op[0], {"scope": w.resolver.resolution_scope, "initial": w.scope0})
+        try:
+            scope_now = w.resolver.resolution_scope
+        except Exception as e:
+            return ("scope-unreadable|" + op[0], {"exception": type(e).__name__,
+                                                  "stack": list(getattr(w.resolver, "_scopes_stack", []))})
+        if scope_now != w.scope0:
+            return ("scope-not-restored|" + op[0], {"scope": scope_now, "initial": w.scope0})
         st = getattr(w.resolver, "_scopes_stack", None)
         if st is not None and list(st) != w.stack0:
             return ("scope-stack-not-restored|" + op[0], {"stack": list(st), "initial": w.stack0})
